@@ -52,15 +52,19 @@ type Ctx struct {
 	nontriv  map[string]bool // distinct non-trivial case keys
 	samples  []string
 	rule     string
-	oracleN  int // number of oracle evaluations
-	scale    int // 1 quick, larger for thorough
-	goOnly   int // cases run on the Go side only (too large for the model runner): oracle only, no model comparison
+	oracleN  int  // number of oracle evaluations
+	scale    int  // 1 quick, larger for thorough
+	noModel  bool // while set, add() is a no-op (Go-side-only cases)
+	goOnly   int  // cases run on the Go side only (too large for the model runner): oracle only, no model comparison
 	// faultIsFinding: a panic of the implementation on any generated case is a
 	// violation of the property itself (C16)
 	faultIsFinding bool
 }
 
 func (c *Ctx) add(op string, args ...string) int {
+	if c.noModel {
+		return -1 // a Go-side-only case (too large for the model runner): oracle only
+	}
 	id := fmt.Sprintf("%s-%d", c.prop, len(c.cases))
 	c.cases = append(c.cases, Case{ID: id, Op: op, Args: args})
 	c.dist["op:"+op]++
